@@ -694,6 +694,12 @@ fn run_worker(
         }
     }
 
+    #[cfg(nomt_verif)]
+    super::extend_range_protocol::verif::record_final(
+        &worker_params,
+        &new_leaf_state.leaves_tracker,
+    );
+
     Ok(LeafWorkerOutput {
         leaves_tracker: new_leaf_state.leaves_tracker,
         overflow_deleted,
@@ -800,4 +806,133 @@ fn preload_and_prepare(
     }
 
     Ok(changeset_leaves)
+}
+
+/// Verification hook (compiled only with `--cfg nomt_verif`): the real leaf stage ([`run`]: `prepare_workers`,
+/// `preload_and_prepare`, `run_worker` on the thread pool, `apply_worker_changes`, `filter_leaves_changeset`,
+/// `enforce_first_leaf_separator`) on caller-supplied leaves (all of them in the leaf cache, indexed by branch
+/// nodes built with the real `BranchNodeBuilder`) and a scratch leaf store file. Nothing here is used by the
+/// store itself.
+#[cfg(nomt_verif)]
+pub mod verif {
+    use super::super::branch_stage::verif::StageEnv;
+    use super::super::branch_updater::verif::make_node;
+    use super::super::extend_range_protocol::verif::{params_view, ParamsView};
+    use super::super::leaf_updater::verif::{entries_of, make_leaf, Entry};
+    use super::{prepare_workers, run, Index, Key, LeafCache, PageNumber, StoreReader, ValueChange};
+    use crate::beatree::allocator::Store;
+    use crate::beatree::ops::bit_ops::separator_len;
+    use crate::io::PAGE_SIZE;
+    use std::{path::Path, sync::Arc};
+
+    /// `LeafStageOutput`: the leaf changeset (after `filter_leaves_changeset` / `enforce_first_leaf_separator`),
+    /// `freed_pages` in the order the stage reports them, and every leaf the workers produced (page number,
+    /// entries) — the ones of the changeset and the ones that became pending bases of a left worker.
+    pub struct LeafStageOut {
+        pub leaf_changeset: Vec<(Key, Option<u32>)>,
+        pub freed: Vec<u32>,
+        pub new_leaves: Vec<(u32, Vec<Entry>)>,
+        pub submitted_io: usize,
+    }
+
+    fn index_of(leaves: &[(Key, u32)], fanout: usize) -> Index {
+        let mut index = Index::default();
+        for (i, group) in leaves.chunks(fanout.max(1)).enumerate() {
+            let node = make_node(group, 1, separator_len(&group[0].0), 1_000_000 + i as u32);
+            index.insert(group[0].0, node.0.clone());
+        }
+        index
+    }
+
+    /// The `WorkerParams` the private `prepare_workers` computes for these leaves (separator, page number),
+    /// changed keys and worker count.
+    pub fn prepare_view(
+        leaves: &[(Key, u32)],
+        fanout: usize,
+        keys: &[Key],
+        num_workers: usize,
+    ) -> Vec<ParamsView> {
+        let index = index_of(leaves, fanout);
+        let changeset: Vec<(Key, Option<(Vec<u8>, bool)>)> = keys.iter().map(|k| (*k, None)).collect();
+        params_view(&prepare_workers(&index, &changeset, num_workers))
+    }
+
+    /// `leaf_stage::run` with `num_workers` workers on the leaves `(separator, page number, entries)` (ascending,
+    /// the first separator all-zero), `fanout` leaves per branch node; the leaf store is a fresh file at `path`
+    /// whose allocation frontier is `bump` and whose free list is empty. Changes are `Insert(value)` / `Delete`
+    /// (no overflow values). Waits for the page writes the stage submitted.
+    pub fn run_leaf_stage(
+        env: &StageEnv,
+        path: &Path,
+        leaves: &[(Key, u32, Vec<Entry>)],
+        fanout: usize,
+        changeset: &[(Key, Option<Vec<u8>>)],
+        num_workers: usize,
+        bump: u32,
+    ) -> std::io::Result<LeafStageOut> {
+        let (page_pool, io_pool, thread_pool) = env.parts();
+        let file = std::fs::OpenOptions::new()
+            .read(true)
+            .write(true)
+            .create(true)
+            .truncate(true)
+            .open(path)?;
+        file.set_len((bump as u64 + 64) * PAGE_SIZE as u64)?;
+        let file = Arc::new(file);
+        let store = Store::verif_with_free_list(file, PageNumber(bump), vec![])?;
+        let leaf_reader = StoreReader::new(store.clone(), page_pool.clone());
+        let (leaf_writer, _finisher) = store.start_sync();
+
+        let leaf_cache = LeafCache::new(1, 1 << 20);
+        for (_, pn, entries) in leaves {
+            leaf_cache.insert(PageNumber(*pn), Arc::new(make_leaf(page_pool, entries)));
+        }
+        let seps: Vec<(Key, u32)> = leaves.iter().map(|(k, pn, _)| (*k, *pn)).collect();
+        let index = index_of(&seps, fanout);
+
+        let changeset: imbl::OrdMap<Key, ValueChange> = changeset
+            .iter()
+            .map(|(k, v)| {
+                (
+                    *k,
+                    match v {
+                        Some(v) => ValueChange::Insert(v.clone()),
+                        None => ValueChange::Delete,
+                    },
+                )
+            })
+            .collect();
+        let io_handle = io_pool.make_handle();
+        let output = run(
+            &index,
+            leaf_cache,
+            leaf_reader,
+            leaf_writer,
+            io_handle.clone(),
+            changeset,
+            thread_pool.clone(),
+            num_workers,
+        )?;
+        for _ in 0..output.submitted_io {
+            let complete = io_handle.recv().expect("I/O pool down");
+            complete.result?;
+        }
+        let mut new_leaves = Vec::new();
+        for worker_output in &output.post_io_work.worker_changes {
+            for (_, entry) in &worker_output.leaves_tracker.inner {
+                if let Some((leaf, pn)) = &entry.inserted {
+                    new_leaves.push((pn.0, entries_of(leaf)));
+                }
+            }
+            for leaf in &worker_output.leaves_tracker.deferred_drop_pages {
+                new_leaves.push((u32::MAX, entries_of(leaf)));
+            }
+        }
+        Ok(LeafStageOut {
+            leaf_changeset: output.leaf_changeset.iter().map(|(k, pn)| (*k, pn.map(|p| p.0))).collect(),
+            freed: output.freed_pages.iter().map(|pn| pn.0).collect(),
+            new_leaves,
+            submitted_io: output.submitted_io,
+        })
+    }
 }
